@@ -262,7 +262,52 @@ class C20Executor(Executor):
     # ---- `while` loops under a per-iteration invariant: same proof scheme as the engine's symbolic `for`, with a GHOST iteration
     #      index (0 at entry, +1 per iteration, arbitrary >= 0 at the loop head and at exit).  Partial correctness only: nothing
     #      is claimed about termination of a `while` loop.
+    # ---- a loop cut inside a driver leaves its mark on EVERY path that leaves the loop.  The engine's `symbolic_for` resets the
+    # path condition of the state after the loop to the one before it (dropping what havoc_loop_state assumed), so the tag is
+    # put back here; otherwise a postcondition VC behind a restructured loop (moved into a helper, invariant not fitting) would
+    # be a definite refutation of code that may be perfectly right.
+    def _keep_cut_tag(self, run, s, st):
+        before = getattr(self, "_loop_cuts", 0)
+        outs = run(s, st)
+        if getattr(self, "_loop_cuts", 0) != before:
+            for o in outs:
+                try:
+                    if not any(z3.is_expr(p_) and p_.eq(LOOP_CUT_TAG) for p_ in o.st.pc):
+                        o.st.assume(LOOP_CUT_TAG)
+                except Exception:  # noqa -- an outcome without an ordinary state: nothing to tag
+                    pass
+        return outs
+
+    def loop_spec(self, node):
+        """The block loop of a driver may live in a private helper that the driver calls directly (`return _apply(rk, data, fn)`):
+        when the driver's own body has no loop, its loop specification goes to the FIRST loop of a helper inlined at depth 1.  The
+        invariant finds its subjects by role among that helper's locals; where it does not fit, it raises Unsupported / fails on a
+        tagged path, i.e. `unknown`, never a refutation."""
+        import ast as _ast
+        spec = super().loop_spec(node)
+        c = getattr(self, "contract", None)
+        if spec is not None or c is None or self.abstract or getattr(c, "role", "") not in DRIVERS or self.inline_depth != 1:
+            return spec
+        if len(self.cur_fn_stack) != 2 or not isinstance(self.cur_fn_stack[-1], _ast.FunctionDef):
+            return None
+
+        def loops_of(fn):
+            ls = [n for n in _ast.walk(fn) if isinstance(n, (_ast.For, _ast.While))]
+            ls.sort(key=lambda n: (n.lineno, n.col_offset))
+            return ls
+        helper = self.cur_fn_stack[-1]
+        if loops_of(self.cur_fn_stack[0]) or self._has_yield(helper.body):
+            return None
+        hl = loops_of(helper)
+        return c.loops.get(0) if hl and hl[0] is node else None
+
+    def s_For(self, s, st):
+        return self._keep_cut_tag(super().s_For, s, st)
+
     def s_While(self, s, st):
+        return self._keep_cut_tag(self._s_while, s, st)
+
+    def _s_while(self, s, st):
         from pyvc.symex import LoopCtx, Outcome
         spec = self.loop_spec(s)
         if spec is None or spec.inv is None or spec.inv_point is None or spec.unroll is not None:
@@ -332,6 +377,11 @@ class C20Executor(Executor):
                 if cur is not None and (isinstance(cur, VBytes) or self._is_symb(cur)):
                     carried.append(name)
         super().havoc_loop_state(st, body, spec, extra_names)
+        if not self.abstract and getattr(getattr(self, "contract", None), "role", "") in DRIVERS:
+            # from here on the path depends on an invariant this pack inferred -- or, for a loop that was moved into an inlined
+            # helper (any inline depth), on no invariant at all: a VC refuted on it is `unknown` (verify.discharge)
+            st.assume(LOOP_CUT_TAG)
+            self._loop_cuts = getattr(self, "_loop_cuts", 0) + 1
         for r, o in sym.items():
             # content AND length are arbitrary after the havoc (a buffer may grow); the loop invariant says what the length is
             ln = z3.Int(fresh_name("out_len"))
@@ -653,6 +703,7 @@ class C20Executor(Executor):
 PYPDF_FALLBACK, PYPDF_PROVIDERS, PYPDF_ENCRYPTION = "pypdf._crypt_providers._fallback", "pypdf._crypt_providers", "pypdf._encryption"
 PYPDF_MODULES = (PYPDF_FALLBACK, PYPDF_PROVIDERS, PYPDF_ENCRYPTION)
 DRIVERS = ("aes_ecb_encrypt", "aes_ecb_decrypt", "aes_cbc_encrypt", "aes_cbc_decrypt")
+LOOP_CUT_TAG = z3.Bool("__havoc__@loop cut by an invariant inferred from the roles of the locals")
 
 
 class InstallExecutor(C20Executor):
